@@ -145,8 +145,10 @@ func previewFile(rt *rapid.T) ([]byte, string) {
 	}
 	f := make([]byte, 16)
 	binary.BigEndian.PutUint16(f[4:], 1)
-	binary.BigEndian.PutUint16(f[6:], 160)
-	binary.BigEndian.PutUint16(f[8:], 120)
+	// the stated dimensions are file fields too: ordinary, zero, or the largest a 16-bit field holds
+	dims := rapid.SampledFrom([][2]uint16{{160, 120}, {1620, 1080}, {0, 0}, {0xffff, 0xffff}, {0xffff, 1}}).Draw(rt, "dims")
+	binary.BigEndian.PutUint16(f[6:], dims[0])
+	binary.BigEndian.PutUint16(f[8:], dims[1])
 	binary.BigEndian.PutUint16(f[10:], 1)
 	binary.BigEndian.PutUint32(f[12:], stated)
 	prvw := &gen.Box{Type: "PRVW", Data: append(f, make([]byte, jpegLen)...)}
